@@ -253,6 +253,9 @@ class Alias:
 
     def call_depth(self, e):
         f = e.func
+        if isinstance(f, ast.Name) and f.id == "type" and len(e.args) == 1 and not e.keywords:
+            # the class of a shared object is shared by every instance of it (and outlives them): type(self).counter += 1
+            return 0 if self.d(e.args[0]) < INF else INF
         args = list(e.args) + [k.value for k in e.keywords]
         dargs = [self.d(a) for a in args]
         dmin = min(dargs or [INF])
@@ -448,8 +451,9 @@ class Alias:
         except Exception:  # noqa -- definiteness is an optimisation; without it the replayer decides
             must = set()
         def literal(e):
-            while isinstance(e, (ast.Attribute, ast.Subscript)):
-                e = e.value
+            while isinstance(e, (ast.Attribute, ast.Subscript)) or \
+                    (isinstance(e, ast.Call) and isinstance(e.func, ast.Name) and e.func.id == "type" and len(e.args) == 1):
+                e = e.args[0] if isinstance(e, ast.Call) else e.value
             return isinstance(e, ast.Name) and (e.id == "self" or e.id in must)
         def site(n, base, text):
             out.append((n, text, literal(base)))
